@@ -23,7 +23,7 @@ THEOREMS = ["Qentem.Props.C04." + t for t in [
     "evaluate_eq_tree", "evaluate_eq_tree_rat", "evaluate_as_coded_before_fix_differs",
     "remChk_spec", "no_trap", "no_value_iff", "cmp_logic_01", "truth_is_positive",
     "equality_rule_text", "equality_rule_numeric", "equality_rule_number_vs_text",
-    "equality_rule_vars_textual", "add_exact", "sub_exact", "mul_exact_nat", "cmp_exact", "scan_wf", "scan_then_evaluate"]] + [
+    "equality_rule_vars_textual", "add_exact", "sub_exact", "mul_exact_nat", "cmp_exact", "scan_wf", "scan_then_evaluate", "scan_total", "scan_then_evaluate_total"]] + [
     "Qentem.Expr.parseTop_safe"]
 OPEN_STATEMENTS = ["Qentem.Props.C04.ScanPrint (scanner o printer = flatten: statement only, exercised by correspondence)",
                    "arith_exact for * with an Integer-kind factor and for ^ (+, -, Natural*Natural and the comparisons are proved exact; the Fraction oracle covers the rest on the real code)"]
@@ -275,7 +275,11 @@ def o_apply(op, a, b):
         check_exact(Fraction(p))
         return a ** b.numerator if b >= 0 else Fraction(1, a.numerator ** abs(b.numerator))
     if op in ("&", "|"):
-        if a.denominator != 1 or b.denominator != 1 or a < 0 or b < 0:
+        # integers only (the code truncates reals: skipped).  Negative operands: two's complement on
+        # 64 bits; both operands are inside (-2^62, 2^62) here, so Python's unbounded two's-complement
+        # `&` / `|` IS the 64-bit result read as a signed integer (Natural op Natural stays >= 0, any
+        # Integer operand makes the result an Integer by the promotion rules: same mathematical value).
+        if a.denominator != 1 or b.denominator != 1:
             raise Skip
         return Fraction(a.numerator & b.numerator) if op == "&" else Fraction(a.numerator | b.numerator)
     return cmp_logic(op, a, b)
